@@ -930,7 +930,7 @@ def gpt_flags(par: str, bias: bool, primary: bool, mp: bool, prediv: bool = Fals
     return {"self.parallelism == 'input'": par == 'input', "self.parallelism == 'output'": par == 'output', 'self.module.has_bias()': bias, 'self.has_bias()': bias,
             'get_world_size(self.model_parallel_group) > 1': mp, 'world_size == 1': not mp, 'dist.get_rank() == dst': primary, 'get_rank() == self.primary_rank': primary,
             'get_rank() != self.primary_rank': not primary, 'self.primary_rank is None': False, 'self.prediv_eigenvalues': prediv, 'self.symmetric_factors': True,
-            'model_parallel_group is None': False, 'dt == torch.bfloat16 and fp32_allreduce': False, 'dim_size % num_partitions != 0': False, 'contiguous_split_chunks': True,
+            'model_parallel_group is None': False, 'dt == torch.bfloat16 and fp32_allreduce': False, 'fp32_allreduce': False, 'dim_size % num_partitions != 0': False, 'contiguous_split_chunks': True,
             'self.grad_scaler is not None': False}
 
 
